@@ -18,6 +18,7 @@ import (
 	"os/exec"
 	"path/filepath"
 	"regexp"
+	rsyntax "regexp/syntax"
 	"sort"
 	"strconv"
 	"strings"
@@ -782,6 +783,15 @@ func checkBounds(res *Result) {
 			}
 		}
 		desc := fmt.Sprintf("%d index/slice expression(s) on %s in %s that the compiler cannot prove in bounds", byKey[k].n, v, fn)
+		if reason != "" && fn == "DeserializeDuration" && strings.HasPrefix(v, "res") {
+			// the reason is a claim about the regular expression: re-verify it
+			if ok, why := witnessDurationRegexp(S); !ok {
+				res.Add(Oblig{Rule: "C11-R2", Func: fn, Pos: byKey[k].pos, Key: "C11-R2|" + file + "|" + fn + "|" + v, Desc: desc + " — reviewed reason no longer holds", Verdict: VIOLATION, Detail: why})
+				continue
+			} else {
+				reason += " [re-verified: " + why + "]"
+			}
+		}
 		if reason != "" {
 			res.Add(Oblig{Rule: "C11-R2", Func: fn, Pos: byKey[k].pos, Key: "C11-R2|" + file + "|" + fn + "|" + v, Desc: desc + " — reviewed: " + reason, Verdict: OK})
 		} else {
@@ -864,4 +874,138 @@ func singleIteration(file *ast.File, fs *ast.ForStmt) bool {
 	}
 	walk(fs.Body, false)
 	return ok
+}
+
+
+// witnessDurationRegexp re-verifies why res[1..7] in DeserializeDuration is in
+// bounds: the pattern handed to regexp.MustCompile matches every string that
+// begins with 'P' (it is the literal P followed only by parts that may match
+// the empty string, and contains no anchor or boundary assertion), it has at
+// least as many groups as the largest constant index used on res, and a test
+// that returns unless s[0] == 'P' precedes the match.
+func witnessDurationRegexp(S *Streams) (bool, string) {
+	for _, vp := range S.Values {
+		for _, f := range vp.Syntax {
+			for _, d := range f.Decls {
+				fd, ok := d.(*ast.FuncDecl)
+				if !ok || fd.Name.Name != "DeserializeDuration" || fd.Body == nil {
+					continue
+				}
+				var pat string
+				var patPos, guardPos token.Pos
+				maxIdx := 0
+				resName := ""
+				ast.Inspect(fd.Body, func(n ast.Node) bool {
+					switch x := n.(type) {
+					case *ast.AssignStmt:
+						// res := re.FindStringSubmatch(s)
+						if len(x.Rhs) == 1 && len(x.Lhs) == 1 {
+							if c, ok := x.Rhs[0].(*ast.CallExpr); ok {
+								if sel, ok := c.Fun.(*ast.SelectorExpr); ok && sel.Sel.Name == "FindStringSubmatch" {
+									resName = typesExpr(x.Lhs[0])
+								}
+							}
+						}
+					case *ast.CallExpr:
+						if sel, ok := x.Fun.(*ast.SelectorExpr); ok && sel.Sel.Name == "MustCompile" && typesExpr(sel.X) == "regexp" && len(x.Args) == 1 {
+							if bl, ok := x.Args[0].(*ast.BasicLit); ok && bl.Kind == token.STRING {
+								pat, _ = strconv.Unquote(bl.Value)
+								patPos = x.Pos()
+							}
+						}
+					case *ast.IfStmt:
+						// if len(s) == 0 || s[0] != 'P' { return … }
+						txt := exprText(x.Cond)
+						if strings.Contains(txt, "[0] != 'P'") && strings.Contains(txt, "len(") && len(x.Body.List) > 0 {
+							if _, ok := x.Body.List[len(x.Body.List)-1].(*ast.ReturnStmt); ok && guardPos == token.NoPos {
+								guardPos = x.Pos()
+							}
+						}
+					}
+					return true
+				})
+				ast.Inspect(fd.Body, func(n ast.Node) bool {
+					if ix, ok := n.(*ast.IndexExpr); ok && resName != "" && typesExpr(ix.X) == resName {
+						if bl, ok := ix.Index.(*ast.BasicLit); ok {
+							if k, err := strconv.Atoi(bl.Value); err == nil && k > maxIdx {
+								maxIdx = k
+							}
+						} else {
+							maxIdx = 1 << 20 // a non-constant index: not covered by this argument
+						}
+					}
+					return true
+				})
+				if pat == "" {
+					return false, "no regexp.MustCompile(<string literal>) found in DeserializeDuration"
+				}
+				if guardPos == token.NoPos || guardPos > patPos {
+					return false, "no test that returns unless the string is non-empty and starts with 'P' precedes the match"
+				}
+				re, err := rsyntax.Parse(pat, rsyntax.Perl)
+				if err != nil {
+					return false, "pattern does not parse: " + err.Error()
+				}
+				anchored := ""
+				var walk func(r *rsyntax.Regexp)
+				walk = func(r *rsyntax.Regexp) {
+					switch r.Op {
+					case rsyntax.OpBeginLine, rsyntax.OpEndLine, rsyntax.OpBeginText, rsyntax.OpEndText, rsyntax.OpWordBoundary, rsyntax.OpNoWordBoundary:
+						anchored = r.Op.String()
+					}
+					for _, sub := range r.Sub {
+						walk(sub)
+					}
+				}
+				walk(re)
+				if anchored != "" {
+					return false, fmt.Sprintf("the pattern %q contains the assertion %s: a string that starts with 'P' but is not wholly of the expected shape no longer matches, FindStringSubmatch returns nil and res[1] panics", pat, anchored)
+				}
+				var nullable func(r *rsyntax.Regexp) bool
+				nullable = func(r *rsyntax.Regexp) bool {
+					switch r.Op {
+					case rsyntax.OpEmptyMatch, rsyntax.OpStar, rsyntax.OpQuest:
+						return true
+					case rsyntax.OpRepeat:
+						return r.Min == 0 || nullable(r.Sub[0])
+					case rsyntax.OpCapture, rsyntax.OpPlus:
+						return nullable(r.Sub[0])
+					case rsyntax.OpConcat:
+						for _, sub := range r.Sub {
+							if !nullable(sub) {
+								return false
+							}
+						}
+						return true
+					case rsyntax.OpAlternate:
+						for _, sub := range r.Sub {
+							if nullable(sub) {
+								return true
+							}
+						}
+					}
+					return false
+				}
+				okShape := false
+				if re.Op == rsyntax.OpConcat && len(re.Sub) >= 1 && re.Sub[0].Op == rsyntax.OpLiteral && string(re.Sub[0].Rune) == "P" && re.Sub[0].Flags&rsyntax.FoldCase == 0 {
+					okShape = true
+					for _, sub := range re.Sub[1:] {
+						if !nullable(sub) {
+							okShape = false
+						}
+					}
+				} else if re.Op == rsyntax.OpLiteral && string(re.Rune) == "P" {
+					okShape = true
+				}
+				if !okShape {
+					return false, fmt.Sprintf("the pattern %q is not the literal P followed only by parts that may be empty: some strings starting with 'P' do not match", pat)
+				}
+				if re.MaxCap() < maxIdx {
+					return false, fmt.Sprintf("the pattern has %d groups but res[%d] is used", re.MaxCap(), maxIdx)
+				}
+				return true, fmt.Sprintf("pattern %q: literal P + nullable parts, no assertions, %d groups ≥ largest index %d, 'P' test precedes", pat, re.MaxCap(), maxIdx)
+			}
+		}
+	}
+	return false, "DeserializeDuration not found"
 }
